@@ -68,6 +68,21 @@ def analyse(rep, prog, fn, rule, spec):
                 uncond = all(h not in cfg.reachable_from(b, s, stop={bi}) for s in info[3])
                 val = tm.operand(t["args"][1])
                 writes.append((cn, val, uncond, t))
+        # index-loop form: `for i in 0..part.len() { part[i].store(..) }` consumes `part` when every write addresses part[i]
+        if src[0] == "agg" and src[1].startswith("adt:core::ops::range::Range::Range") and len(src[2]) == 2 and T.const_val(src[2][0]) == 0:
+            hi = T.strip_casts(src[2][1])
+            if hi[0] == "call" and hi[1] == "slice::len":
+                part = strip_wrappers(hi[2][0])
+                nxt = T.canon(info[0])
+
+                def addresses_part(recv):
+                    r = T.strip_refs(recv)
+                    if r[0] != "idx" or T.canon(strip_wrappers(r[1])) != T.canon(part):
+                        return False
+                    ix = T.canon(r[2])
+                    return ix == ("f", ("as", nxt, "Some"), 0)
+                if writes and all(addresses_part(tm.operand(w[3]["args"][0])) for w in writes):
+                    src = part
         loops.append({"h": h, "src": src, "ok": ok, "why": why, "writes": writes, "span": b.term(h)["span"]})
     # ---- split calls
     splits = []
@@ -190,7 +205,7 @@ def analyse(rep, prog, fn, rule, spec):
         good = lp["ok"] and lp["writes"] and all(w[2] for w in lp["writes"])
         rep.check(good, rule, key, "written completely by an exhaustive loop", "part %s: %s" % (name, lp["why"] or "no unconditional write per element"), lp["span"])
         check_value(rep, rule, key, spec, name, lp["writes"], tm, b, LEN)
-    rep.floor(rule, "partition leaves of %s" % fn.split("::")[-1], n, 5)
+    rep.floor(rule, "partition leaves of %s" % fn.split("::")[-1], n, 3)
     # split point of the bitfields: frames / LEN
     for bi, t, cn, src, call in splits:
         if cn == "slice::split_at" and any(x[0] == "f" and x[3] == "bitfields" for x in T.walk(src)):
